@@ -19,6 +19,9 @@ class Unsupported(Exception):
     pass
 
 
+LIST_KEY = 'rsatoolbox_list'
+
+
 def _num_token(x):
     """exact token of a real number: int | 'p/q' | 'nan' | 'inf' | '-inf' | '-0'"""
     if isinstance(x, (bool, np.bool_)):
@@ -84,15 +87,24 @@ def wire(v):
     if isinstance(v, dict):
         return {'d': [[_text(k), wire(x)] for k, x in v.items()]}
     if isinstance(v, np.ndarray):
-        sh, at = _flatten(v)
+        try:
+            sh, at = _flatten(v)
+        except Unsupported:
+            if v.dtype.kind == 'O':
+                # an object array holding None / nested values (numpy builds them from lists
+                # with missing entries, e.g. in time_as_observations): the list of its entries
+                return wire(v.tolist())
+            raise
         return {'t': 'nd', 'sh': sh, 'e': at}
     if isinstance(v, list):
         try:
             sh, at = _flatten(v)
         except Unsupported:
-            # ragged / None-holding list: the index-keyed form the list fall-back of the HDF5
-            # writer uses ('0' -> v[0], '1' -> v[1], …); position = key, so order is compared
-            return {'d': [[_text(str(i)), wire(x)] for i, x in enumerate(v)]}
+            # a list numpy cannot turn into an array (ragged / holding None): the model's list
+            # form = the entries keyed by position ('0' -> v[0], …) behind a marker entry
+            # (LIST_KEY -> length).  A dict with the same keys but no marker is a *dict*.
+            return {'d': [[_text(LIST_KEY), {'t': 'scalar', 'sh': [], 'e': [['i', len(v)]]}]]
+                    + [[_text(str(i)), wire(x)] for i, x in enumerate(v)]}
         return {'t': 'list', 'sh': sh, 'e': at}
     if isinstance(v, tuple):
         sh, at = _flatten(v)
@@ -149,6 +161,10 @@ def short(x):
 
 # ----------------------------------------------------------------------------- spec -> python
 
+NP_DTYPES = {'float32': np.float32, 'float16': np.float16, 'int8': np.int8, 'uint16': np.uint16,
+             'int32': np.int32, 'bool_': np.bool_, 'float64': np.float64, 'int64': np.int64}
+
+
 def pv(spec):
     """python value of a value spec"""
     t = spec['py']
@@ -169,9 +185,13 @@ def pv(spec):
     if t == 'dict':
         return {k: pv(x) for k, x in spec['v']}
     if t == 'nd':
-        dt = {'f': float, 'i': int, 'U': str, 'b': bool}[spec['dtype']]
+        if spec['dtype'] in NP_DTYPES:       # small numpy dtypes (values exactly representable)
+            return np.array([float(x) for x in spec['v']]).astype(NP_DTYPES[spec['dtype']]).reshape(spec['shape'])
+        dt = {'f': float, 'i': int, 'U': str, 'b': bool, 'O': object}[spec['dtype']]
         flat = [float(x) if spec['dtype'] == 'f' else x for x in spec['v']]
         return np.array(flat, dtype=dt).reshape(spec['shape'])
+    if t == 'npscalar':                      # a numpy scalar object (np.float32(1.5), np.bool_(True), …)
+        return NP_DTYPES[spec['dtype']](spec['v'])
     raise ValueError(t)
 
 
@@ -203,6 +223,13 @@ def _apply_history(obj, history):
                 elif name == 'concat_self':
                     from rsatoolbox.rdm import concat
                     new = concat([obj, obj])
+                elif name == 'concat_bare':
+                    # concat with a stack that carries no rdm descriptors: the library fills the
+                    # missing entries of the merged descriptors with None
+                    from rsatoolbox.rdm import concat, RDMs
+                    bare = RDMs(obj.dissimilarities.copy(), dissimilarity_measure=obj.dissimilarity_measure,
+                                pattern_descriptors=dict(obj.pattern_descriptors))
+                    new = concat([obj, bare])
                 elif name == 'append_self':
                     import copy
                     new = copy.deepcopy(obj)
@@ -238,6 +265,9 @@ def build_dataset(spec):
     if len(spec['shape']) == 3:
         td = spec.get('time_descriptors')
         obj = TemporalDataset(meas, time_descriptors=None if td is None else pv_dict(td), **kw)
+    elif spec.get('cls') == 'DatasetBase':
+        from rsatoolbox.data.base import DatasetBase
+        obj = DatasetBase(meas, **kw)
     else:
         obj = Dataset(meas, **kw)
     return _apply_history(obj, spec.get('history'))
@@ -262,6 +292,10 @@ def build_model(spec):
     return cls(spec['name'], arg)
 
 
+def _a_fitter(model, data, **kw):
+    return None
+
+
 def build_result(spec):
     from rsatoolbox.inference import Result
     import rsatoolbox.inference as ri
@@ -271,8 +305,11 @@ def build_result(spec):
         nc = np.array(spec['noise_ceiling'], dtype=float).reshape(spec['nc_shape'])
         var = None if spec.get('variances') is None else \
             np.array(spec['variances'], dtype=float).reshape(spec['var_shape'])
+        # `fitter` is not part of what is saved (the property lists models, evaluations, variances,
+        # dof …): a Result that carries one must round-trip in everything else
         res = Result(models, ev, spec['method'], spec['cv_method'], nc, variances=var,
-                     dof=spec.get('dof', 1), n_rdm=spec.get('n_rdm'), n_pattern=spec.get('n_pattern'))
+                     dof=spec.get('dof', 1), n_rdm=spec.get('n_rdm'), n_pattern=spec.get('n_pattern'),
+                     fitter=(_a_fitter if spec.get('fitter') else None))
         for k, v in (spec.get('post') or {}).items():
             setattr(res, k, v)
         return res
@@ -405,6 +442,11 @@ def behaviour(kind, o):
 EXT = {'h5': '.h5', 'pkl': '.pkl', 'other': '.dat'}
 
 
+def target_name(t):
+    """file name ending of a path target (older corpus cases carry 'ext' instead of 'name')"""
+    return t['name'] if 'name' in t else EXT[t.get('ext', 'other')]
+
+
 class Files:
     """targets of one session in a scratch directory"""
 
@@ -414,7 +456,7 @@ class Files:
 
     def target(self, t):
         if t['path']:
-            return os.path.join(self.dir, f"p{t['id']}{EXT[t.get('ext', 'other')]}")
+            return os.path.join(self.dir, f"p{t['id']}{target_name(t)}")
         key = t['id']
         if key not in self.handles:
             if t.get('mem'):
@@ -435,6 +477,7 @@ class Files:
 
 
 def real_save(kind, obj, target, ft, overwrite):
+    """`ft` / `overwrite` None = the argument is not passed (the defaults of `save` apply)"""
     if kind == 'model':
         # models have no save(): the dictionary writers are the interface
         from rsatoolbox.io.hdf5 import write_dict_hdf5
@@ -443,9 +486,14 @@ def real_save(kind, obj, target, ft, overwrite):
         d = obj.to_dict()
         if overwrite:
             remove_file(target)
-        (write_dict_hdf5 if ft == 'hdf5' else write_dict_pkl)(target, d)
+        (write_dict_hdf5 if (ft or 'hdf5') == 'hdf5' else write_dict_pkl)(target, d)
     else:
-        obj.save(target, file_type=ft, overwrite=overwrite)
+        kw = {}
+        if ft is not None:
+            kw['file_type'] = ft
+        if overwrite is not None:
+            kw['overwrite'] = overwrite
+        obj.save(target, **kw)
     if hasattr(target, 'flush'):
         target.flush()
 
@@ -465,8 +513,9 @@ def real_load(kind, target, ft):
     from rsatoolbox.io.hdf5 import read_dict_hdf5
     from rsatoolbox.io.pkl import read_dict_pkl
     from rsatoolbox.model import model_from_dict
-    if ft is None and isinstance(target, str):
-        ft = 'pkl' if target.endswith('.pkl') else 'hdf5' if target.endswith(('.h5', 'hdf5')) else None
+    if ft is None and isinstance(target, str):     # the harness' rule for models = load_rdm's
+        ft = 'pkl' if target[-4:] == '.pkl' else 'hdf5' if target[-3:] == '.h5' or target[-4:] == 'hdf5' \
+            else None
     if ft is None:
         raise ValueError('filetype not understood')
     return model_from_dict((read_dict_hdf5 if ft == 'hdf5' else read_dict_pkl)(target))
@@ -488,7 +537,7 @@ def run_session(case, on_save=None, on_load=None):
                 try:
                     with warnings.catch_warnings():
                         warnings.simplefilter('ignore')
-                        real_save(kinds[i], objs[i], tgt, op['ft'], op['overwrite'])
+                        real_save(kinds[i], objs[i], tgt, op.get('ft'), op.get('overwrite'))
                     err = None
                 except Exception as exc:  # noqa: BLE001
                     err = type(exc).__name__ + ': ' + str(exc)[:60]
